@@ -4,7 +4,10 @@ use crate::report::Tier;
 
 pub mod c02;
 pub mod c06;
+pub mod c09;
 pub mod c11;
+pub mod c13;
+pub mod c15;
 pub mod c17;
 pub mod seeds;
 
@@ -14,7 +17,10 @@ pub fn run(prop: &str, tier: Tier, seed: u64) -> Option<i32> {
         "C02" => c02::run(tier, seed),
         "C08" => c02::run_c08(tier, seed),
         "C06" => c06::run(tier, seed),
+        "C09" => c09::run(tier, seed),
         "C11" => c11::run(tier, seed),
+        "C13" => c13::run(tier, seed),
+        "C15" => c15::run(tier, seed),
         "C17" => c17::run(tier, seed),
         _ => return None,
     })
@@ -24,7 +30,10 @@ pub fn replay(prop: &str, witness: &serde_json::Value) -> Option<i32> {
     Some(match prop {
         "C02" | "C08" => c02::replay(witness),
         "C06" => c06::replay(witness),
+        "C09" => c09::replay(witness),
         "C11" => c11::replay(witness),
+        "C13" => c13::replay(witness),
+        "C15" => c15::replay(witness),
         "C17" => c17::replay(witness),
         _ => return None,
     })
